@@ -83,6 +83,9 @@ class InitMethod(MethodDescriptor):
                             or attr == instance_metadata.init_overflow_attr
                         ):
                             continue
+                        if kwargs.get(attr, None) is MISSING:
+                            # (A key that was not passed.)
+                            del kwargs[attr]
                         if attr in kwargs:
                             parent_kwargs[attr] = kwargs.pop(attr)
                             if not instance_attr_spec.do_not_copy:
